@@ -18,6 +18,49 @@ class InternalError(Exception):
     pass
 
 
+class CrashUnderTest(Exception):
+    """the harness process died with a Go panic / fatal error whose innermost non-runtime frame is in the code under test"""
+    def __init__(self, what, cmd, trace):
+        Exception.__init__(self, what)
+        self.what, self.cmd, self.trace = what, cmd, trace
+
+
+REPO_FRAME = re.compile(r"^github\.com/Vedant9500/WTF/(internal|cmd|pkg)/")
+
+
+def crash_under_test(stderr_text):
+    """Return the panic message when stderr shows a Go panic/fatal error raised inside the repository's own packages
+    (first frame that is not runtime/stdlib/panic machinery belongs to github.com/Vedant9500/WTF/{internal,cmd,pkg}), else None.
+    A panic whose innermost frame is the harness (main.*) is a harness bug, not a finding."""
+    m = re.search(r"^(panic: .*|fatal error: .*)$", stderr_text, re.M)
+    if not m:
+        return None
+    tail = stderr_text[m.start():]
+    g = re.search(r"^goroutine \d+ \[running\]:\n", tail, re.M) or re.search(r"^goroutine \d+ .*:\n", tail, re.M)
+    if not g:
+        return None
+    for line in tail[g.end():].splitlines():
+        if not line or line.startswith("\t") or line.startswith("created by"):
+            if line.startswith("created by") or not line:
+                break
+            continue
+        fn = line.strip()
+        if fn.startswith(("runtime.", "panic(", "runtime/", "sync.", "sync/", "internal/", "reflect.", "sort.", "slices.", "strings.", "container/")):
+            continue
+        if REPO_FRAME.match(fn):
+            return m.group(1)
+        return None
+    return None
+
+
+def harness_failed(what, cmd, p):
+    err = p.stderr.decode(errors="replace")
+    msg = crash_under_test(err)
+    if msg:
+        raise CrashUnderTest(msg, [str(c) for c in cmd], err[-6000:])
+    raise InternalError("%s failed (%d): %s" % (what, p.returncode, err[-4000:]))
+
+
 _scratch = None
 
 
@@ -111,7 +154,7 @@ def run_harness(sub, seed=1, n=100, replay=None, extra=(), timeout=1800, race=Fa
         e.update(env)
     p = run(cmd, timeout=timeout, env=e)
     if p.returncode != 0:
-        raise InternalError("harness %s failed (%d): %s" % (sub, p.returncode, p.stderr.decode(errors="replace")[-4000:]))
+        harness_failed("harness " + sub, cmd, p)
     cases = []
     with open(out) as f:
         for line in f:
